@@ -203,7 +203,10 @@ func KeyPair(root string) *rapid.Generator[Key] {
 // UID draws a user id: absent (nil), explicit default, empty, short, long (<= 8191 bytes).
 func UID() *rapid.Generator[UIDCase] {
 	return rapid.Custom(func(t *rapid.T) UIDCase {
-		switch rapid.IntRange(0, 7).Draw(t, "uidkind") {
+		switch rapid.IntRange(0, 8).Draw(t, "uidkind") {
+		case 8:
+			// absent given as an empty, non-nil slice ([]byte{}, buf[:0]): must mean the same as nil on both sides
+			return UIDCase{make([]byte, 0, 4), "uid_empty_slice"}
 		case 0, 1:
 			return UIDCase{nil, "uid_absent"}
 		case 2:
